@@ -556,7 +556,9 @@ func (x *Exec) applyContract(f *Frame, st *State, fn *ssa.Function, c *Contract,
 			bv := NewBound(a.Name, a.Sort)
 			t = Forall(bv, substitute(t, a, bv, map[*Term]*Term{}))
 		}
+		n0 := len(st.pc)
 		st.assume(t)
+		x.tagFrom(st, n0, lastName(key)+"."+e.Label)
 	}
 	switch len(rets) {
 	case 0:
